@@ -33,7 +33,7 @@ ASSUMPTIONS = [
     "the reference runs in a fresh interpreter per file with settings re-read from the two JSON files",
     "the schedules observed are those multiprocessing.Pool produces on this machine (fork start method); injected delays widen the set but the evidence only claims the assignments actually logged",
 ]
-NOT_REACHED = ["file names containing glob metacharacters ([ ] ? *): obspy.read() inside the miniSEED reader expands them as patterns on the unchanged tree too, so the single-file reference is not trustworthy for them", "figure output (--no_figure is always set)", "more than 8 files per batch", "start methods other than fork"]
+NOT_REACHED = ["worker-side task events under spawn / forkserver (the probe is not inherited; outputs are judged)", "file names containing glob metacharacters ([ ] ? *): obspy.read() inside the miniSEED reader expands them as patterns on the unchanged tree too, so the single-file reference is not trustworthy for them", "figure output (--no_figure is always set)", "more than 8 files per batch"]
 BUDGET = {"quick": dict(cases=8, seconds=70, shards=4),
           "thorough": dict(cases=256, seconds=900, shards=16)}
 REQUIRED = ["mon:csv-equals-library-pipeline", "mon:every-file-processed-exactly-once", "mon:one-output-per-input-file", "task_events", "cli_runs"]
@@ -89,12 +89,14 @@ def env_for():
     return env
 
 
-def run_cli(workdir, pre_f, proc_f, files, nproc, dmc, dfn, delay_seed):
+def run_cli(workdir, pre_f, proc_f, files, nproc, dmc, dfn, delay_seed, start_method=None):
     log = os.path.join(workdir, "events.jsonl")
     if os.path.exists(log):
         os.remove(log)
     env = env_for()
     env.update(HVSRPY_VERIF="1", HVSRPY_VERIF_LOG=log, HVSRPY_VERIF_DELAYS=f"{delay_seed}:150")
+    if start_method:
+        env["HVSRPY_VERIF_START_METHOD"] = start_method
     cmd = [sys.executable, "-W", "ignore", "-m", "hvmon.cli.launcher", "--no_figure",
            "--preprocessing_settings_file", pre_f, "--processing_settings_file", proc_f,
            "--distribution_mc", dmc, "--distribution_fn", dfn] + ([] if nproc is None else ["--nproc", str(nproc)]) + list(files)
@@ -190,10 +192,18 @@ def fam_batch(ctx, rng):
             for c in os.listdir(d):
                 if c.endswith(".csv"):
                     os.remove(os.path.join(d, c))
-            p, events = run_cli(d, pre_f, proc_f, batch, nproc, dmc, dfn, delay_seed=int(rng.integers(0, 10 ** 6)))
+            # the last batch of some cases runs with spawned (not forked) workers; those do not carry the probe, so only the
+            # outputs are judged for them
+            start_method = None
+            if b == nb - 1 and rng.random() < (0.5 if ctx.tier == "quick" else 0.35):
+                start_method = str(rng.choice(["spawn", "forkserver"]))
+                nproc = 2 if nproc in (None, 16) else nproc
+                ctx.count("batches_with_spawned_workers")
+            p, events = run_cli(d, pre_f, proc_f, batch, nproc, dmc, dfn, delay_seed=int(rng.integers(0, 10 ** 6)),
+                                start_method=start_method)
             ctx.count("cli_runs")
             ctx.count("task_events", len(events))
-            info = dict(kind=kind, rates=rates, order=[int(i) for i in order], nproc=nproc, batch=batch)
+            info = dict(kind=kind, rates=rates, order=[int(i) for i in order], nproc=nproc, batch=batch, start_method=start_method or "fork")
             if p.returncode != 0:
                 ctx.violation("exception:cli", "the command line interface exited with an error", stderr=p.stderr[-1500:], **info)
                 continue
@@ -204,7 +214,8 @@ def fam_batch(ctx, rng):
                     ctx.extra_totals.update(e["totals"])
             sched, calls = schedule_of(events)
             done = sorted(os.path.basename(e["file"]) for e in calls)
-            ctx.check(done == sorted(os.path.basename(b) for b in batch) and len([e for e in events if e["ev"] == "return"]) == len(batch),
+            if start_method is None:
+              ctx.check(done == sorted(os.path.basename(b) for b in batch) and len([e for e in events if e["ev"] == "return"]) == len(batch),
                       "every-file-processed-exactly-once", "task log: a file was processed twice or not at all",
                       processed=done, **info)
             info["schedule"] = {str(k): v for k, v in sched.items()}
